@@ -5,6 +5,7 @@ package sim
 
 import (
 	"fmt"
+	"sync"
 	"time"
 
 	v1 "k8s.io/api/core/v1"
@@ -155,6 +156,8 @@ type Fault struct {
 
 // Journal collects entries and owns the fault plan.
 type Journal struct {
+	// Big serialises the simulated API servers: escalator may call them from several goroutines
+	Big     sync.Mutex
 	Entries []Entry
 	Faults  []*Fault
 	// LastCode is the error code asked for by the fault that fired last
@@ -172,6 +175,13 @@ func (j *Journal) Add(e Entry) *Entry {
 	e.T = time.Now()
 	j.Entries = append(j.Entries, e)
 	return &j.Entries[len(j.Entries)-1]
+}
+
+// AddLocked is Add for callers outside the simulated API servers (it takes the big lock itself).
+func (j *Journal) AddLocked(e Entry) *Entry {
+	j.Big.Lock()
+	defer j.Big.Unlock()
+	return j.Add(e)
 }
 
 // Mark returns the current length, for slicing out a scan's entries later.
